@@ -7,6 +7,7 @@ import (
 	"strings"
 	"time"
 
+	"github.com/tsuna/gohbase/pb"
 	"gosim/hb"
 	"gosim/rng"
 
@@ -63,7 +64,7 @@ func genC17(seed uint64, r *rng.Rand) *Plan {
 	if g.R.Chance(0.4) {
 		at = g.R.Range(1, 6)
 	}
-	scen := []string{"retry-later", "flaky-server", "fatal-forever", "never-online", "meta-silent", "meta-down", "zk-errors", "log-closed", "fatal-in-multi", "nsre-request-only", "mixed-batch", "meta-rows-bad", "slow-dial-relayout"}[g.R.Intn(13)]
+	scen := []string{"retry-later", "flaky-server", "fatal-forever", "never-online", "meta-silent", "meta-down", "zk-errors", "log-closed", "fatal-in-multi", "nsre-request-only", "mixed-batch", "meta-rows-bad", "slow-dial-relayout", "cache-meta-hang"}[g.R.Intn(14)]
 	p.Scenario = scen
 	switch scen {
 	case "retry-later":
@@ -134,6 +135,16 @@ func genC17(seed uint64, r *rng.Rand) *Plan {
 		for len(p.Tasks) < 3 {
 			p.Tasks = append(p.Tasks, Task{Ops: []Op{g.SingleOp(ts.Name, g.KeyNear(ts.Splits, 2), []string{"get", "put", "inc"})}})
 		}
+	case "cache-meta-hang":
+		// CacheRegions (the scan of all of a table's rows in hbase:meta) while the
+		// regionserver of hbase:meta has stopped answering: every attempt ends
+		// with the lookup timeout, after exactly that long on the simulated clock,
+		// while the connection stays (the read timeout is longer)
+		p.Client.ReadTimeoutMS = []int{30000, 600000}[g.R.Intn(2)]
+		p.Client.LookupMS = []int{250, 1000, 5000}[g.R.Intn(3)]
+		p.Tasks = []Task{{Ops: []Op{g.SingleOp(ts.Name, g.KeyNear(ts.Splits, 2), []string{"get", "put"}), {Kind: "sleep", MS: 2000}, {Kind: "cache", Table: ts.Name}}}}
+		p.Faults = append(p.Faults, &Fault{On: "ms", N: 1000, Act: "silent", Server: p.Layout.Meta})
+		p.Sched.MaxFake = time.Duration(g.R.Range(2, 12)) * time.Minute
 	case "meta-rows-bad":
 		// hbase:meta answers, but what it says about the table's regions is unusable
 		kind := []string{"regioninfo-offline", "server-empty", "server-absent", "regioninfo-bad-proto", "regioninfo-empty", "regioninfo-absent"}[g.R.Intn(6)]
@@ -300,6 +311,29 @@ func (w *World) checkC17() []Violation {
 		// one call, hbase:meta unusable from the start: all lookups are the
 		// attempts of that call's lookup loop, one stream
 		vs = append(vs, w.checkStream(stream{name: "scenario " + scen + ", hbase:meta lookups", times: metas, free: 1})...)
+	}
+	if scen == "cache-meta-hang" {
+		// the scan requests for hbase:meta that reached the silent server: each
+		// attempt lasts exactly the lookup timeout, the rest of a gap is the wait
+		var arr []int64
+		for _, cn := range w.Env.Conns {
+			for _, rq := range cn.SC.Pending {
+				if sr, ok := rq.Msg.(*pb.ScanRequest); ok && strings.HasPrefix(string(sr.GetRegion().GetValue()), "hbase:meta") {
+					arr = append(arr, rq.Arrived)
+				}
+			}
+		}
+		sort.Slice(arr, func(i, j int) bool { return arr[i] < arr[j] })
+		lk := int64(ms(w.Plan.Client.LookupMS))
+		waits := []int64{0}
+		for k := 1; k < len(arr); k++ {
+			// the stream checker works on attempt times: remove the attempts' own duration
+			waits = append(waits, waits[k-1]+arr[k]-arr[k-1]-lk)
+		}
+		if len(arr) >= 3 {
+			w.Env.Probe("c17-cache-attempts>=3")
+		}
+		vs = append(vs, w.checkStream(stream{name: "scenario " + scen + ", CacheRegions attempts (gaps net of the lookup timeout)", times: waits, free: 0})...)
 	}
 	// (4) hot loop: the run consumed its step budget while fake time stood still
 	if n := w.Env.MaxInstantSteps; n > 40000 {
